@@ -67,13 +67,15 @@ def build(flavour="ship", quiet=True):
     if os.path.isdir(out):
         shutil.rmtree(out)
     os.makedirs(out)
-    # drop old builds of the same flavour (disk is limited); keep the 10 most recent ones because
+    # drop old builds of the same flavour (disk is limited); keep the 80 most recent ones and anything younger than 6 h because
     # self-test runs (VERIF_REPO_SRC=scratch copy) build concurrently with checks of /repo
     parent = os.path.dirname(out)
     olds = sorted((os.path.getmtime(os.path.join(parent, n)), n) for n in os.listdir(parent)
                   if n.startswith("nvx-%s-" % flavour) and os.path.join(parent, n) != out)
-    for _, n in olds[:-10]:
-        shutil.rmtree(os.path.join(parent, n), ignore_errors=True)
+    import time as _time
+    for mt, n in olds[:-80]:
+        if _time.time() - mt > 6 * 3600:      # never remove a build a concurrent run may still be using
+            shutil.rmtree(os.path.join(parent, n), ignore_errors=True)
     if flavour == "ship":
         cargs = _load_compile_args()
         largs = []
